@@ -540,6 +540,11 @@ async fn handle_import(store: &mut Store, body: hyper::body::Incoming) -> HTTPRe
         Err(e) => return response_400(format!("Invalid frame JSON: {}", e)),
     };
 
+    // Ephemeral frames are never stored: importing one must not make it durable
+    if frame.ttl == Some(TTL::Ephemeral) {
+        return response_400("Ephemeral frames cannot be imported".to_string());
+    }
+
     store.insert_frame(&frame)?;
 
     Ok(Response::builder()
